@@ -94,9 +94,13 @@ func cfgDigest(sp *saml2.SAMLServiceProvider) string {
 		}
 	}
 	if sp.SPKeyStore != nil {
-		if _, c, err := sp.SPKeyStore.GetKeyPair(); err == nil {
+		if k, c, err := sp.SPKeyStore.GetKeyPair(); err == nil {
 			h := sha256.Sum256(c)
 			sb.WriteString("spcert=" + hex.EncodeToString(h[:8]) + ";")
+			if k != nil {
+				// the key object is configuration too: a call must not write into it
+				fmt.Fprintf(&sb, "spkey-precomputed=%v/%v/%d;", k.Precomputed.Dp != nil, k.Precomputed.Qinv != nil, len(k.Precomputed.CRTValues))
+			}
 		}
 	}
 	if sp.Clock != nil {
